@@ -1,7 +1,7 @@
 #!/bin/bash
 # try_seed.sh <patch> <check-script> [tier]: applies a patch to /repo, runs the check, undoes the patch.
 PATCH=$1; CHECK=$2; TIER=${3:-quick}
-cd /repo && git apply "$PATCH" || { echo "patch does not apply"; exit 2; }
+cd /repo && { [ -z "$(git status --porcelain)" ] || { echo "REFUSING: /repo has uncommitted changes"; exit 2; }; } && git apply "$PATCH" || { echo "patch does not apply"; exit 2; }
 cd /verif && python3 checks/$CHECK $TIER 2>&1 | grep "VIOLATION\|sig=\|ENGINE\|KNOWN" | cut -c1-260
 echo "check exit=${PIPESTATUS[0]}"
 cd /repo && git checkout -- . && git status --short
